@@ -15,6 +15,7 @@ import (
 
 	"github.com/drand/drand/v2/crypto"
 	"github.com/drand/drand/v2/verifharness/bnet"
+	"github.com/drand/drand/v2/verifharness/repairchk"
 	"github.com/drand/drand/v2/verifharness/vlib"
 	"github.com/drand/kyber/share"
 	"github.com/drand/kyber/util/random"
@@ -160,6 +161,10 @@ func main() {
 	}
 	c.Count("packet_sequences", int64(total))
 	c.E1Batch(jobs, time.Until(c.DeadlineIn(90*time.Second, 25*time.Minute)))
+	// c01-resync: what the operator-triggered check / repair path (re-sync from peers, which writes below the
+	// append-only layer) persists must verify like everything else: every corruption pattern of a 5-round store, mixed
+	// honest and lying peers (same enumeration as c10-check)
+	repairchk.Run(c, "c01/resync", "c01-resync")
 	syncCheck(c)
 	c.Assume("beacon validity is decided by the harness' reference verifier (digest from the scheme's specification, kyber tbls/bls), never by the code under test",
 		"V is member 0; all other members are scripted; threshold BLS operations are memoised as pure functions")
